@@ -6,6 +6,8 @@ package rig
 
 import (
 	"context"
+	"crypto/sha256"
+	"encoding/binary"
 	"encoding/base64"
 	"encoding/json"
 	"fmt"
@@ -860,3 +862,38 @@ func Fatalf(f string, a ...any) {
 }
 
 var _ = cryptocodec.FromCmtPubKeyInterface
+
+// WalkStore iterates the raw KV pairs of a module store under prefix in key order.
+func (r *Rig) WalkStore(ctx sdk.Context, store string, prefix []byte, fn func(k, v []byte) bool) {
+	key := r.App.UnsafeFindStoreKey(store)
+	if key == nil {
+		panic("no store " + store)
+	}
+	it := storetypes.KVStorePrefixIterator(ctx.KVStore(key), prefix)
+	defer it.Close()
+	for ; it.Valid(); it.Next() {
+		if fn(it.Key(), it.Value()) {
+			return
+		}
+	}
+}
+
+// StoreDigest is a hex sha256 over the ordered KV pairs of a module store.
+func (r *Rig) StoreDigest(ctx sdk.Context, store string) string {
+	h := sha256.New()
+	n := 0
+	r.WalkStore(ctx, store, nil, func(k, v []byte) bool {
+		var l [8]byte
+		binary.BigEndian.PutUint32(l[:4], uint32(len(k)))
+		binary.BigEndian.PutUint32(l[4:], uint32(len(v)))
+		h.Write(l[:])
+		h.Write(k)
+		h.Write(v)
+		n++
+		return false
+	})
+	return fmt.Sprintf("%x/%d", h.Sum(nil)[:12], n)
+}
+
+// StoreNames lists the mounted KV store names of the ten irismod modules.
+var IrismodStores = []string{"coinswap", "farm", "htlc", "mt", "nft", "oracle", "random", "record", "service", "token"}
